@@ -77,6 +77,37 @@ func init() {
 				}
 			}
 		}
+		// comments are white space: a block comment ends at its first "*/" however many stars stand before it or after
+		// the opening, a line comment at the line break. One comment at any gap of a well-formed text leaves it
+		// well-formed; with a stray lexeme right after (or right before) the comment the text must be refused - a comment
+		// that does not end where it should swallows the rest of the file, stray lexeme included.
+		comments := []string{"/**/", "/***/", "/****/", "/*****/", "/* x */", "/** x */", "/* x **/", "/** x **/", "/*** x ***/", "/* x ***/", "/**** x ****/",
+			"/* * / */", "/*/*/", "/* // */", "/* x\n * y\n **/", "// x\n", "//\n", "//*/\n", "// /* x\n"}
+		for _, b := range bases {
+			for g := 0; g <= len(b); g++ {
+				for _, c := range comments {
+					mk := func(mid ...string) string {
+						var parts []string
+						parts = append(parts, b[:g]...)
+						parts = append(parts, mid...)
+						parts = append(parts, b[g:]...)
+						return strings.Join(parts, " ")
+					}
+					out.Texts++
+					if ok, pan := accepts(mk(c)); !ok && len(out.Violations) < 20 {
+						out.Violations = append(out.Violations, viol{mk(c), fmt.Sprintf("a well-formed text with the comment %q at gap %d is refused by the front end %s", c, g, pan)})
+					}
+					for _, j := range []string{",", "#", "="} {
+						for _, t := range []string{mk(c, j), mk(j, c)} {
+							out.Texts++
+							if ok, _ := accepts(t); ok && len(out.Violations) < 20 {
+								out.Violations = append(out.Violations, viol{t, fmt.Sprintf("the stray lexeme %q next to the comment %q at gap %d is accepted by the front end", j, c, g)})
+							}
+						}
+					}
+				}
+			}
+		}
 		js, _ := json.Marshal(out)
 		fmt.Println(string(js))
 	}
